@@ -290,6 +290,28 @@ pub fn run(out: &mut Out, seed: u64, thorough: bool) {
             }
         }
     }
+    // the longest PDUs a re-use first fragment can carry (the total length counts no label bytes), cut so that the
+    // last intermediate fragment ends 0..6 bytes before the end of the PDU: the receiver's length bookkeeping
+    // must use the label as written, not the label it resolved
+    let tails: Vec<usize> = if thorough { (0..=6).collect() } else { vec![0, 1, 4, 5] };
+    for (label, plens) in [(LA6, if thorough { vec![65533usize, 65532, 65528, 65527] } else { vec![65533, 65528] }), (LA3, if thorough { vec![65533, 65531, 65530] } else { vec![65533] })] {
+        for plen in plens {
+            for r in &tails {
+                let mut sched = vec![4097usize];
+                let mut rem = plen - 4090;
+                while rem > 4094 {
+                    sched.push(4097);
+                    rem -= 4094;
+                }
+                if rem > *r {
+                    sched.push(3 + rem - r);
+                }
+                sched.push(4097);
+                let cfg = ChainCfg { plen, label, subst_first: true, ptype: 0x0800, fragid: (100 + r) as u8, sched, slots: 2, extra_storage: r % 2, reset_after: None };
+                run_chain(out, &mut rng, &cfg, "max_reuse_tail");
+            }
+        }
+    }
     // long PDUs up to the 16-bit total length, a few with tiny buffers (many packets)
     for (i, plen) in big.iter().enumerate() {
         let label = labels[i % 3];
